@@ -32,6 +32,7 @@ const (
 	vpClearStore              // Clear: store cleared
 	vpCloseCleared            // Close: Clear returned
 	vpPolAddEnter             // policy.Add: under the policy lock, before any decision; b = cost
+	vpPolRecv                 // policy goroutine: batch of Get hashes received, before the policy lock; a = len
 )
 
 func verifBool(b bool) uint64 {
